@@ -318,8 +318,9 @@ fn xml_style_comments_parser(
         Box::new(move |node, source_code| {
             if node.kind() == comment_node_kind {
                 let comment = &source_code[node.byte_range()];
-                let open_idx = comment.find("<!--").expect("open comment tag is expected");
-                let close_idx = comment.rfind("-->").expect("close comment tag is expected");
+                // A degenerate comment node (e.g. produced by error recovery) may lack a delimiter.
+                let open_idx = comment.find("<!--")?;
+                let close_idx = comment.rfind("-->").filter(|idx| *idx >= open_idx + 4)?;
                 let mut result = String::with_capacity(comment.len());
                 result.push_str(&comment[..open_idx]);
                 // Replace "<!--" with spaces.
@@ -338,8 +339,14 @@ fn xml_style_comments_parser(
 
 fn c_style_multiline_comment_processor(comment: &str) -> String {
     let mut result = String::with_capacity(comment.len());
-    let open_idx = comment.find("/*").expect("expected '/*' in a comment");
-    let close_idx = comment.rfind("*/").expect("expected '*/' in a comment");
+    // A degenerate comment node (e.g. an unterminated comment or one produced by error recovery)
+    // may lack a delimiter: it is returned as is.
+    let Some(open_idx) = comment.find("/*") else {
+        return comment.to_string();
+    };
+    let Some(close_idx) = comment.rfind("*/").filter(|idx| *idx >= open_idx + 2) else {
+        return comment.to_string();
+    };
     // Add everything before the "/*"
     result.push_str(&comment[..open_idx]);
     // Replace "/*" with spaces.
